@@ -153,7 +153,10 @@ func getEnv18() (*c18Env, error) {
 // pseudonym, optional comment - with nested comments, commas and quoted-pairs (an escaped parenthesis leaves the
 // parentheses of a comment unbalanced for anyone who counts them without honouring the escape)
 var c18Others = []string{"1.1 other", "1.0 fred", "1.1 p.example.net:8080", "1.1 a (comment)", "HTTP/1.1 GWA", "1.1 forwarder-0000000000", "1.1 forwarder", "2.0 h2hop", "@B",
-	"1.1 edge (Acme \\(edge gateway)", "1.1 gw (build 12\\) rc)", "1.1 c (a, b)", "1.1 n (nested (deep (er)) comment)", "1.1 q (say \\\"hi\\\")", "1.1 e ()", "1.1 bs (back\\\\slash)"}
+	"1.1 edge (Acme \\(edge gateway)", "1.1 gw (build 12\\) rc)", "1.1 c (a, b)", "1.1 n (nested (deep (er)) comment)", "1.1 q (say \\\"hi\\\")", "1.1 e ()", "1.1 bs (back\\\\slash)",
+	// comments that read like the error texts of the proxy's own error mapping
+	"1.1 edge (tls: 1.3 terminated here)", "1.1 gw (connection refused)", "1.1 lb (context deadline exceeded)", "1.1 c2 (EOF)", "1.1 c3 (i/o timeout)", "1.1 c4 (x509: certificate signed by unknown authority)",
+	"1.1 c5 (no such host)", "1.1 c6 (malformed HTTP response)"}
 
 func genC18(t *rapid.T) C18Case {
 	c := C18Case{Mode: rapid.SampledFrom([]string{"chain", "chain", "chain", "chain-mitm", "loop-aa", "loop-aba", "chain-connect", "chain-connect-hdr", "chain-anon", "chain-named"}).Draw(t, "mode")}
